@@ -741,7 +741,7 @@ def _split_top_commas(text, m):
 
 
 def r40_write(text, log):
-    """R40: `write!(F, "lit{}lit{:>w$}", a, b, w = E)` / `writeln!(..)` -> the sequence of sink operations the macro stands for
+    """R50: `write!(F, "lit{}lit{:>w$}", a, b, w = E)` / `writeln!(..)` -> the sequence of sink operations the macro stands for
     (std: format_args! pieces are sent to the sink in order, stopping at the first error):
         { put_str(F, "lit")?; put_display(F, &(a))?; put_str(F, "lit")?; put_padded_right(F, b, E)?; .. last }
     Only `{}` (Display) and `{:>NAME$}` (right-aligned in width NAME) placeholders are in the catalogue; anything else is a lost anchor.
@@ -756,11 +756,11 @@ def r40_write(text, log):
         inner, minner = text[mt.end():close], m[mt.end():close]
         args = _split_top_commas(inner, minner)
         if len(args) < 1:
-            raise Lost("R40: write! without sink")
+            raise Lost("R50: write! without sink")
         sink = args[0]
         fmt = args[1] if len(args) > 1 else '""'
         if not re.fullmatch(r'"(?:[^"\\]|\\.)*"', fmt):
-            raise Lost(f"R40: format string is not a plain literal: {fmt!r}")
+            raise Lost(f"R50: format string is not a plain literal: {fmt!r}")
         body = fmt[1:-1]
         pos, named = [], {}
         for a in args[2:]:
@@ -785,13 +785,13 @@ def r40_write(text, log):
                 spec = body[k + 1:e]
                 flush()
                 if ai >= len(pos):
-                    raise Lost("R40: more placeholders than arguments")
+                    raise Lost("R50: more placeholders than arguments")
                 if spec == "":
                     ops.append(("disp", pos[ai]))
                 else:
                     sm = re.fullmatch(r":>(\w+)\$", spec)
                     if not sm or sm.group(1) not in named:
-                        raise Lost(f"R40: placeholder {{{spec}}} outside the catalogue")
+                        raise Lost(f"R50: placeholder {{{spec}}} outside the catalogue")
                     ops.append(("padr", pos[ai], named[sm.group(1)]))
                 ai += 1; k = e + 1
             elif c == "\\":
@@ -802,7 +802,7 @@ def r40_write(text, log):
             lit += "\\n"
         flush()
         if ai != len(pos):
-            raise Lost("R40: unused positional arguments")
+            raise Lost("R50: unused positional arguments")
         stm = []
         for op in ops:
             if op[0] == "lit":
@@ -814,17 +814,17 @@ def r40_write(text, log):
         if not stm:
             stm = [f'put_str({sink}, "")']
         out = "{ " + " ".join(x + "?;" for x in stm[:-1]) + " " + stm[-1] + " }"
-        log.append({"rule": "R40-write", "before": text[mt.start():close + 1], "after": out})
+        log.append({"rule": "R50-write", "before": text[mt.start():close + 1], "after": out})
         text = text[:mt.start()] + out + text[close + 1:]
         n += 1
     if n == 0:
-        raise Lost("R40: no write! found")
+        raise Lost("R50: no write! found")
     return text
 
 
 STRUCTURAL = {"R11c": r11_closure, "R14": r14_all, "R16m": r16_drop_methods, "R12d": r12_debug_assert, "R5": r5_for_bytes, "R7": r7_mut_self, "R0": r0_named_return, "R4": r4_format, "R12": r12_unreachable,
               "R6": r6_for_enumerate, "R10": r10_drop_loop, "R25": r25_hashmap_iter_mut, "R25b": r25b_hashmap_into_iter, "R25c": r25c_hashmap_retain, "R25d": r25d_amount_iter, "R26": r26_forward_ref_op, "R27": r27_entry_match, "R28": r28_nested_entry_binding, "R29": r29_entry_or_insert_with,
-              "R30": r30_flat_map_filter_map, "R34b": r34b_map_transpose_try, "R20s": r20s_let_try_into, "R6b": r6b_for_tuple_in_vec, "R25e": r25e_values_mut, "R40": r40_write}
+              "R30": r30_flat_map_filter_map, "R34b": r34b_map_transpose_try, "R20s": r20s_let_try_into, "R6b": r6b_for_tuple_in_vec, "R25e": r25e_values_mut, "R50": r40_write}
 
 
 def apply_rewrites(text, rewrites, log):
@@ -996,7 +996,7 @@ def _extract_unit(repo, unit, log, canary=False):
         text = auto_rules(text, ulog, unit.get("lifetimes", "erase"))
         text = apply_rewrites(text, unit.get("rewrites", []), ulog)
         if unit.get("reveal_literals"):
-            # R43: the characters of every string literal of the unit are made known to the verifier (`reveal_strlit`, a proof-only statement at the top of the body)
+            # R53: the characters of every string literal of the unit are made known to the verifier (`reveal_strlit`, a proof-only statement at the top of the body)
             mm0 = L.mask(text)
             lits = []
             for lm in re.finditer(r'"(?:[^"\\]|\\.)*"', text):
@@ -1006,7 +1006,7 @@ def _extract_unit(repo, unit, log, canary=False):
                 bo0, _ = fn_body_open(text, unit.get("fn"))
                 ins = " proof { " + " ".join(f"reveal_strlit({x});" for x in lits) + " }\n"
                 text = text[:bo0 + 1] + ins + text[bo0 + 1:]
-                ulog.append({"rule": "R43-reveal-literals", "before": "", "after": ins.strip()})
+                ulog.append({"rule": "R53-reveal-literals", "before": "", "after": ins.strip()})
         if unit.get("pub_fields") or re.match(r"\s*pub struct\b", text):
             # R2-vis: private fields made `pub` (visibility only; needed for lemmas in a sibling module)
             text, n = re.subn(r"(?m)^(\s*)(?!pub\b)(\w+\s*:\s)", r"\1pub \2", text)
